@@ -236,6 +236,9 @@ func c04() []*Ob {
 					c.Violation("alias:FetchDocs:ids:"+FuncName(sk.Instr.Parent()), sk.Instr.Pos(), "the id list passed to FetchDocs is modified in place (%s in %s): the caller still uses it to label the fetched documents, so documents are returned under other ids", sk.How, FuncName(sk.Instr.Parent()))
 				}
 			}},
+		{Prop: "C04", ID: "C04.8", Engine: "DOM(evidence)", Floor: 1,
+			Desc:  "the position search of a fetch in a sealed fraction rests on a monotone predicate: sealedIDsIndex.LessOrEqual (used by findLIDs with real RIDs) answers the constant true only when the lid is beyond the table, when the previous block's minimum ID — MID and RID — is <= id, or after comparing the position's own MID with id.MID (shared rule with C14.6; comparing only the MID of the previous block's minimum hides every stored id of a millisecond that straddles a block border)",
+			Check: func(c *Ctx) { lessOrEqualEvidence(c) }},
 		{Prop: "C04", ID: "C04.4", Engine: "DOM+PROV", Floor: 4,
 			Desc: "absent means an empty entry at its own position: GroupDocsOffsets skips DocPosNotFound without touching the groups; FetchDocs writes a fraction's result only at reversPos[id] and only when the document was found; IndexFetch writes res[dst] for grouped positions only; docsStream.Next hands out exactly one element per call",
 			Check: func(c *Ctx) {
@@ -290,6 +293,30 @@ func c04() []*Ob {
 							c.Site(st.Pos(), "FetchDocs overwrites a result slot only with a found (non-nil) document, at reversPos[id]")
 						} else {
 							c.Violation("dom:FetchDocs:only-found", st.Pos(), "FetchDocs can overwrite a result slot with a not-found (nil) entry: a document found in one fraction is erased by another candidate fraction that does not have it")
+						}
+					}
+					// what FetchDocs returns is the slice arranged in request order, never a fraction's own result
+					async := Callee("(*fracmanager.Fetcher).fetchDocsAsync")
+					for _, b := range fn.Blocks {
+						ret, ok := b.Instrs[len(b.Instrs)-1].(*ssa.Return)
+						if !ok {
+							continue
+						}
+						v := RetOperand(ret, 0)
+						if IsNilConst(v) {
+							continue
+						}
+						if DerivesFromNoCall(v, func(x ssa.Value) bool {
+							e, isE := x.(*ssa.Extract)
+							if !isE {
+								return false
+							}
+							cl, isC := e.Tuple.(ssa.CallInstruction)
+							return isC && async(cl)
+						}) {
+							c.Violation("prov:FetchDocs:returns-fraction-order", ret.Pos(), "FetchDocs returns a fraction's own result slice: it is in the sorted order the ids were grouped in, not in the order of the request, so every caller pairs documents with the wrong ids unless the request happened to be sorted")
+						} else {
+							c.Site(ret.Pos(), "FetchDocs returns the slice arranged in request order")
 						}
 					}
 					if n == 0 {
